@@ -88,6 +88,12 @@ CHECKS = {
             "End-to-end executions (Invoke -> SimpleMethodSender -> loopback pipes -> SimpleMethodReceiver -> "
             "InterfaceBindings -> handler) incl. truncated/corrupted/raw requests are validated call by call by TrRpc.tla "
             "(request framing, dispatcher status, handler log, reply bytes, Invoke result, pipe positions).", "6 C14"),
+    "C19": ("Threads.tla: per-thread, per-(T,Slot) storage; MC_Threads explores all interleavings of 2-3 threads running "
+            "ThreadLocal programs (Isolation, ScheduleIndependent) and emits the schedules, which real std::threads replay in "
+            "lock step; free-running 4-16 threads mix ThreadLocal operations on shared slot types with serializer round "
+            "trips on their own objects; TrThreads.tla validates every observation against the model and every in-thread "
+            "codec step against Wire.tla; the executor is built with ThreadSanitizer and a report is a Race event that no "
+            "action accepts.", "6 C19"),
 }
 
 PENDING_REASON = "check under construction in this session (DESIGN.md section 12); moves to checks when built"
